@@ -118,7 +118,7 @@ def excused_entries(data):
     out = []
     for mi, si, n, line in py_failing_loads(data):
         m = data['modules'][mi]
-        if known_id(m['name'], m['scopes'][si]['qualname'], data['names'][n]):
+        if known_id(m['name'], m['scopes'][si]['owner'] or '<module>', data['names'][n]):
             out.append((mi, si, n))
     return out
 
@@ -586,41 +586,45 @@ def corner_check():
 # dynamic probe (failing-input search)
 # --------------------------------------------------------------------------
 
-def _function_expr(qualname):
-    if not qualname or '<locals>' in qualname or '<' in qualname:
-        return None
-    return qualname
+def reads_global(m, qualname, name):
+    """Does the code object `qualname` of module `m` (compiled from its source) load `name` as a
+    global/builtin (LOAD_GLOBAL / LOAD_NAME)?  qualname None = the module body."""
+    import dis
+    import inspect
+    top = compile(inspect.getsource(m), m.__file__, 'exec')
+    todo, found = [top], False
+    while todo:
+        c = todo.pop()
+        todo.extend(k for k in c.co_consts if hasattr(k, 'co_code'))
+        q = None if c is top else c.co_qualname
+        # lambdas / comprehensions / generator expressions belong to their enclosing def
+        while q and q.rsplit('.', 1)[-1] in ('<lambda>', '<listcomp>', '<setcomp>', '<dictcomp>', '<genexpr>'):
+            q = q.rsplit('.', 1)[0] if '.' in q else None
+            if q and q.endswith('.<locals>'):
+                q = q[:-len('.<locals>')]
+        if q == qualname:
+            found = found or any(i.opname in ('LOAD_GLOBAL', 'LOAD_NAME') and i.argval == name
+                                 for i in dis.get_instructions(c))
+    return found
 
 
 def probe_load(module, qualname, name):
-    """Evaluate `name` the way the function would (its __globals__, then builtins).
+    """Evaluate `name` the way the function would (module globals, then builtins).
     Returns (script, error or None)."""
-    fe = _function_expr(qualname)
-    lines = [f'import importlib; m = importlib.import_module({module!r})']
+    lines = ['import importlib; from harness.c19 import reads_global',
+             f'm = importlib.import_module({module!r}); assert reads_global(m, {qualname!r}, {name!r})',
+             f'eval({name!r}, vars(m))   # what `{qualname or "<module>"}` does when it reads `{name}`']
     try:
         m = importlib.import_module(module)
+        if not reads_global(m, qualname, name):
+            return lines, None
     except Exception as e:
         return lines, f'{type(e).__name__}: {e}'
-    g = vars(m)
-    if fe:
-        obj = m
-        try:
-            for part in fe.split('.'):
-                obj = getattr(obj, part)
-            if getattr(obj, '__globals__', None) is g and all(p.isidentifier() for p in fe.split('.')):
-                lines.append(f'g = m.{fe}.__globals__')
-            else:
-                fe = None
-        except Exception:
-            fe = None
-    if not fe:
-        lines.append('g = vars(m)')
-    lines.append(f'eval({name!r}, g)   # what `{qualname or "<module>"}` does when it reads {name}')
     try:
-        eval(name, g)
+        eval(name, vars(m))
     except NameError as e:
         return lines, f'NameError: {e}'
-    except Exception as e:
+    except Exception:
         return lines, None
     return lines, None
 
@@ -665,7 +669,7 @@ def describe_failures(pkg, data, fails):
             m = data['modules'][mi]
             s = m['scopes'][si]
             out.append({'what': 'unresolved-name', 'module': m['name'], 'file': os.path.relpath(m['path'], C.REPO),
-                        'function': s['qualname'] or '<module>', 'name': names[n],
+                        'function': s['owner'] or '<module>', 'name': names[n],
                         'lines': s['all_lines'].get(names[n], [line]), 'idx': (mi, si, n)})
         elif f[0] == 'C':
             _, mi, si, b, line = f
@@ -675,7 +679,7 @@ def describe_failures(pkg, data, fails):
                 if cb == b and cl == line:
                     out.append({'what': 'missing-module-attribute', 'module': m['name'],
                                 'file': os.path.relpath(m['path'], C.REPO),
-                                'function': s['qualname'] or '<module>', 'name': names[b],
+                                'function': s['owner'] or '<module>', 'name': names[b],
                                 'chain': '.'.join([names[b]] + [names[a] for a in path]), 'lines': [line],
                                 'path': [names[a] for a in path], 'idx': (mi, si, b)})
         else:
@@ -903,6 +907,9 @@ def do_replay(path):
             print('   >>>', line)
             try:
                 exec(line, g)
+            except AssertionError:
+                print('   -> the function no longer reads that name')
+                break
             except Exception as e:
                 err = f'{type(e).__name__}: {e}'
                 break
